@@ -62,7 +62,7 @@ SHAPES = [
 SHAPE_BY_NAME = {s[0]: s for s in SHAPES}
 SUFFIXES = ["", "b", "w", "l"]
 VALUES = [0, 0x7F, 0xFF, 0x100, 0x1234, 0xFFFF, 0x10000, 0x123456, 0xFFFFFF]
-CASES = ["lower", "upper", "index_suffix_upper"]
+CASES = ["lower", "upper", "index_suffix_upper", "inner_index_upper"]
 SPELLINGS = [
     lambda v: f"0x{v:04x}",
     lambda v: f"0x{v:06X}",
@@ -120,6 +120,9 @@ def render(m: str, shape: str, suffix: str, vtext: str, case: str) -> str:
     elif case == "index_suffix_upper":
         sfx = sfx.upper()
         operand = operand.replace(",x", ",X").replace(",y", ",Y").replace(",s", ",S")
+    elif case == "inner_index_upper":
+        # only the register written inside the parentheses / brackets in upper case
+        operand = operand.replace(",x)", ",X)").replace(",y)", ",Y)").replace(",s)", ",S)").replace(",x]", ",X]")
     return f"{m}{sfx} {operand}".rstrip()
 
 
@@ -181,6 +184,8 @@ def run_enum(shard: dict, res: Res) -> None:
     for m in shard["mnemonics"]:
         for shape, tpl, _ in SHAPES:
             for case in CASES:
+                if case == "inner_index_upper" and ")" not in tpl.split(",", 1)[-1] and "]" not in tpl.split(",", 1)[-1]:
+                    continue          # no register inside parentheses: the same text as the lower-case variant
                 if shape == "imp":
                     stmt = render(m, shape, "", "", case)
                     if case == "index_suffix_upper":
